@@ -23,6 +23,10 @@ import traceback
 
 HERE = os.path.dirname(os.path.dirname(os.path.abspath(__file__)))
 REPO = os.environ.get("VT_REPO", "/repo")
+# runs against a scratch copy (mutant self-test) must not overwrite the
+# evidence and replay files that describe /repo itself
+SCRATCH = os.path.realpath(REPO) != "/repo"
+OUT = os.path.join(HERE, ".work", "scratch-runs") if SCRATCH else HERE
 
 MAX_VIOL_PER_CHUNK = 40
 MAX_REPLAYS = 5
@@ -223,7 +227,7 @@ def run_property(pid, tier, seed, jobs, keep=False):
         c["chunk_id"] = i
     work = os.path.join(HERE, ".work", "%s-%s-%d-%d" % (pid, tier, seed, os.getpid()))
     shutil.rmtree(work, ignore_errors=True)
-    os.makedirs(work)
+    os.makedirs(work, exist_ok=True)
     chunk_timeout = float(getattr(mod, "CHUNK_TIMEOUT_S", {"quick": 900, "thorough": 7200})[tier]
                           if isinstance(getattr(mod, "CHUNK_TIMEOUT_S", None), dict)
                           else {"quick": 900, "thorough": 7200}[tier])
@@ -303,10 +307,6 @@ def run_property(pid, tier, seed, jobs, keep=False):
             dst.update(a)
     if not keep:
         shutil.rmtree(work, ignore_errors=True)
-        try:
-            os.rmdir(os.path.join(HERE, ".work"))
-        except OSError:
-            pass
 
     known = load_known(pid)
     new_viol = [v for v in violations if not (v["known"] and v["known"] in known)]
@@ -373,8 +373,8 @@ def run_property(pid, tier, seed, jobs, keep=False):
         "wall_s": round(time.time() - t0, 2),
         "violations": n_new,
     }
-    os.makedirs(os.path.join(HERE, "evidence"), exist_ok=True)
-    evp = os.path.join(HERE, "evidence", pid + ".json")
+    os.makedirs(os.path.join(OUT, "evidence"), exist_ok=True)
+    evp = os.path.join(OUT, "evidence", pid + ".json")
     with open(evp + ".tmp", "w") as f:
         json.dump(ev, f, indent=1)
     os.replace(evp + ".tmp", evp)
@@ -388,9 +388,9 @@ def run_property(pid, tier, seed, jobs, keep=False):
         print("KNOWN-FINDING: property=%s %s [%s; observed %d time(s) in this run]"
               % (pid, e["what"], kid, known_hits.get(kid, 0)))
     if verdict == "violated":
-        os.makedirs(os.path.join(HERE, "replays"), exist_ok=True)
+        os.makedirs(os.path.join(OUT, "replays"), exist_ok=True)
         for n, v in enumerate(new_viol[:MAX_REPLAYS]):
-            rp = os.path.join(HERE, "replays", "%s-%s-%d-%d.json" % (pid, tier, seed, n))
+            rp = os.path.join(OUT, "replays", "%s-%s-%d-%d.json" % (pid, tier, seed, n))
             with open(rp, "w") as f:
                 json.dump({"property": pid, "tier": tier, "seed": seed, "case": v["case"],
                            "witness": v["witness"], "classified": v["known"]}, f, indent=1)
